@@ -720,6 +720,28 @@ def c0506_monitor(which):
                         "the matcher raised %s (%s) while matching a %s %s order on %s at %s under %s: the run ends with an internal error"
                         % (m["raised"], str(tr.exc)[:80], m["pre"]["effect"], "limit" if m["pre"]["is_limit"] else "market", m["pre"]["book"], m["when"][0], sim.get("slippage_model")), rp)
         if sim.get("signal"):
+            if which == "C05":
+                # signal mode: every order is decided at once at the price of the moment (auction: the open; bar: the close), a limit
+                # order at its own limit, plus slippage
+                for kind, e in tr.events:
+                    if kind != "TRADE" or e["order"] is None:
+                        continue
+                    t, o = e["trade"], e["order"]
+                    when = e["cal"]
+                    bar = ix.bar(t["book"], B.d8(e["trd"].date()))
+                    if bar is None:
+                        ctx.witness("C05.1", {"kind": "fill_without_bar", "signal": True}, "%s %s traded at %s although the bundle has no bar for that day" % (t["book"], t["side"], when), rp)
+                        continue
+                    auction = when.hour == 0 and when.minute == 0
+                    ref = bar[1] if auction else bar[2]
+                    is_buy, is_limit = t["side"] == "BUY", o["type"] == "LIMIT"
+                    deal = o["price"] if is_limit else ref
+                    want = match_sync.slip_price(sim, ix, t["book"], is_buy, is_limit, o["price"], deal, bar[7], bar[8])
+                    ctx.stats["signal_trades_checked"] += 1
+                    if not near(t["price"], want, 1e-12):
+                        ctx.witness("C05.1", {"kind": "trade_price", "auction": auction, "signal": True}, "signal mode, %s %s %s at %s: trade price %r, prescribed %r (the %s %r, slippage %s %s)"
+                                    % (t["book"], "limit" if is_limit else "market", t["side"], when, t["price"], want, "limit" if is_limit else ("open" if auction else "close"), deal,
+                                       sim.get("slippage_model"), sim.get("slippage")), rp)
             return
         cum = collections.Counter()
         n = 0
